@@ -9,6 +9,9 @@ ENGINES = [
 ]
 
 PHASES = {
+    "C05": [
+        {"pkg": "e2", "test": "TestC05StoreBeforeAck", "phase": "C05/store-before-ack"},
+    ],
     "C03": [
         {"pkg": "e2", "test": "TestC03Retransmission", "phase": "C03/retransmission"},
     ],
@@ -48,6 +51,12 @@ PHASES = {
 }
 
 META = {
+    "C05": {
+        "engine": "E2-brokermc",
+        "technique": "explicit enumeration of publisher scripts x subscriber placements x write-fault subsets on a 2-node in-process broker with recording / fault-injecting log proxies and inter-node transport",
+        "text": "Every publisher script up to depth 3 (quick) / 4 (thorough) over PUBLISH QoS 0/1/2 (fresh or repeated identifier, DUP or not), PUBREL for a pending / completed / unknown identifier and a handshake timeout, for destination sets {}, {local}, {remote}, {local, remote} and every subset of {local log write fails, remote node unreachable}; an acknowledgement must be preceded by a successful append on every destination log, a failed destination withholds it, and each QoS 2 handshake forwards exactly once (on PUBREL), never on PUBLISH alone or on repeats.",
+        "note": "Global sequence numbers order proxy events against client reads; what happens to the session after a repeated QoS 2 PUBLISH is recorded, not judged.",
+    },
     "C03": {
         "engine": "E2-brokermc",
         "technique": "explicit enumeration of client response scripts (all interleavings of per-delivery automata) on the complete in-process broker under virtual time, real 1 s expiry ticker",
